@@ -59,6 +59,19 @@ pub struct RunResult {
     pub wall_us: u64,
 }
 
+/// Pin the calling process to one CPU. Children inherit it; steel sizes its
+/// marker pool from the available parallelism, so every run sees the same pool
+/// (2 threads) whatever the worker count.
+pub fn pin_to_cpu(cpu: usize) {
+    unsafe {
+        let mut set: libc::cpu_set_t = std::mem::zeroed();
+        libc::CPU_ZERO(&mut set);
+        let n = libc::sysconf(libc::_SC_NPROCESSORS_ONLN).max(1) as usize;
+        libc::CPU_SET(cpu % n, &mut set);
+        libc::sched_setaffinity(0, std::mem::size_of::<libc::cpu_set_t>(), &set);
+    }
+}
+
 fn set_cloexec(fd: i32) {
     unsafe {
         let fl = libc::fcntl(fd, libc::F_GETFD);
@@ -84,6 +97,17 @@ pub fn run_one(scn: &dyn Scenario, spec: &Spec) -> RunResult {
     }
     if pid == 0 {
         // child
+        if std::env::var_os("VERIF_WORKER_PINNED").is_none() {
+            // not under a pinned worker (replay, one, minimise): pin here
+            let mut set: libc::cpu_set_t = unsafe { std::mem::zeroed() };
+            let pinned = unsafe {
+                libc::sched_getaffinity(0, std::mem::size_of::<libc::cpu_set_t>(), &mut set) == 0
+                    && libc::CPU_COUNT(&set) == 1
+            };
+            if !pinned {
+                pin_to_cpu((spec.index % 16) as usize);
+            }
+        }
         unsafe {
             libc::close(fds[0]);
             // own process group not needed; die with parent
@@ -407,6 +431,7 @@ pub fn run_batch(
             for (r, _) in &pipes {
                 unsafe { libc::close(*r) };
             }
+            pin_to_cpu(w);
             let mut agg = Aggregate::default();
             let mut idx = first + w as u64;
             while idx < first + runs {
@@ -481,6 +506,31 @@ pub fn run_batch(
 // ---------------------------------------------------------------------------
 // known findings
 
+/// `*` matches any run of characters; everything else is literal.
+pub fn glob(pat: &str, s: &str) -> bool {
+    let parts: Vec<&str> = pat.split('*').collect();
+    if parts.len() == 1 {
+        return pat == s;
+    }
+    let mut pos = 0usize;
+    for (i, p) in parts.iter().enumerate() {
+        if i == 0 {
+            if !s.starts_with(p) {
+                return false;
+            }
+            pos = p.len();
+        } else if i == parts.len() - 1 {
+            return s.len() >= pos + p.len() && s[pos..].ends_with(p);
+        } else {
+            match s[pos..].find(p) {
+                Some(k) => pos += k + p.len(),
+                None => return false,
+            }
+        }
+    }
+    true
+}
+
 pub struct Known {
     pub known: Vec<(String, String, String)>, // property, signature, what
 }
@@ -506,7 +556,7 @@ impl Known {
     pub fn find(&self, property: &str, signature: &str) -> Option<&(String, String, String)> {
         self.known
             .iter()
-            .find(|k| k.0 == property && k.1 == signature)
+            .find(|k| k.0 == property && glob(&k.1, signature))
     }
 }
 
